@@ -126,6 +126,11 @@ pub fn run(a: &Args) {
                 let w = rng.word();
                 let bytes = convert::bytes_from_word(w);
                 push(&mut out, format!("TWord {} {} {}", z(w), blist(&bytes), z(convert::word_from_bytes(bytes))), "word", json!(w));
+                let sl: Vec<u8> = (0..rng.range(0, 11)).map(|_| rng.next() as u8).collect();
+                push(&mut out, format!("TWordSlice {} {}", blist(&sl), z(convert::word_from_bytes_slice(&sl))), "word_slice", json!(sl.len()));
+                let hw: Vec<Word> = (0..rng.range(0, 6)).map(|_| rng.word()).collect();
+                let hbytes: Vec<u8> = hw.iter().flat_map(|w| w.to_be_bytes()).collect();
+                push(&mut out, format!("THashWords {} {} {}", zlist(hw.iter().copied()), blist(&essential_hash::hash_words(&hw)), blist(&essential_hash::hash_bytes(&hbytes))), "hash_words", json!(hw.len()));
                 let mut b32 = [0u8; 32]; for b in b32.iter_mut() { *b = if rng.chance(1, 4) { 0xFF } else { rng.next() as u8 }; }
                 let w4 = convert::word_4_from_u8_32(b32);
                 push(&mut out, format!("TWords4 {} {} {}", blist(&b32), zlist(w4.iter().copied()), blist(&convert::u8_32_from_word_4(w4))), "words4", json!(w4));
